@@ -169,12 +169,28 @@ def _build_tree_from_array(shape, f):
     return rec(shape)
 
 
+_MEMO = {}
+
+
 def _run_real(case, variant, kw=None, public=False):
+    """memoised (the correspondence and the oracle ask for the same runs)"""
+    import json
+    key = json.dumps([case, variant, kw, public], sort_keys=True, default=str)
+    if key not in _MEMO:
+        if len(_MEMO) > 4000:
+            _MEMO.clear()
+        _MEMO[key] = _run_real_(case, variant, kw, public)
+    return _MEMO[key]
+
+
+def _run_real_(case, variant, kw=None, public=False):
     """-> {"x": [floats], "info": int, "nit": int} | {"error": kind}"""
     J = _jax()
     cgm, jft = J["cgm"], J["jft"]
     kw = dict(_cfg_kwargs(case) if kw is None else kw)
+    old_reset = cgm.N_RESET
     try:
+        cgm.N_RESET = int(case.get("nreset", 20))     # harness-side patch of the module constant (default 20)
         mat, jv, x0, flat = _system(case)
         if public:
             f = jft.cg if variant == "eager" else jft.static_cg
@@ -185,6 +201,8 @@ def _run_real(case, variant, kw=None, public=False):
         return {"x": [float(t) for t in flat(r.x)], "info": int(r.info), "nit": int(r.nit)}
     except Exception as e:  # canonical error kinds
         return {"error": type(e).__name__}
+    finally:
+        cgm.N_RESET = old_reset
 
 
 # ------------------------------------------------------------------------------------------------ model
@@ -193,7 +211,7 @@ def _model_line(case, scale=None):
     d = {"op": "cg", "mat": [[rs(v) for v in row] for row in case["mat"]], "j": [rs(v) for v in case["j"]],
          "x0": None if case.get("x0") is None else [rs(v) for v in case["x0"]],
          "tol": case["tol"], "atol": case["atol"], "raise": bool(case["raise"]),
-         "tiny": rs(6.0 * float(fin.tiny)), "eps": rs(6.0 * float(fin.eps)), "nreset": 20}
+         "tiny": rs(6.0 * float(fin.tiny)), "eps": rs(6.0 * float(fin.eps)), "nreset": int(case.get("nreset", 20))}
     for k in ("absdelta", "resnorm", "miniter", "maxiter"):
         d[k] = case.get(k)
     if scale is not None:
@@ -430,6 +448,8 @@ def _gen_case(rng, quick):
             "absdelta": None, "resnorm": None, "miniter": None, "maxiter": None}
     if kind != "spd":
         case["raise"] = rng.random() < 0.35
+    if rng.random() < 0.45:
+        case["nreset"] = rng.randint(1, 4)     # exercise the residual-reset branch (N_RESET patched in-process)
     if isinstance(case["shape"], int) and rng.random() < 0.5:
         case["vector"] = False           # plain arrays; bare pytrees of arrays do not support arithmetic
     norms, ediffs = _ref_traj(H, j, x0, max(1, n - 2))
@@ -528,6 +548,7 @@ def _check_cases(ctx, cases):
         m, mu, md = outs[3 * idx], outs[3 * idx + 1], outs[3 * idx + 2]
         ctx.stat("kind=" + c.get("kind", "?"))
         ctx.stat("n=%d" % len(c["j"]))
+        ctx.stat("nreset=%s" % c.get("nreset", 20))
         if "error" in m and "eager" not in m:
             ctx.disagree(c, None, m, "model driver rejected the case")
             continue
@@ -576,7 +597,7 @@ def _check_cases(ctx, cases):
 
 def run(ctx):
     cases = _load_corpus()
-    N = ctx.n(70, 900)
+    N = ctx.n(45, 700)
     for _ in range(N):
         cases.append(_gen_case(ctx.rng, ctx.quick))
     B = 150
